@@ -369,6 +369,13 @@ struct Transport::Impl
             {
               return; // M-3: don't grow a buffer no one will drain
             }
+            if (bufIt->second->overflow)
+            {
+              // Overflow is terminal: a chunk has already been dropped, so anything
+              // appended now would reach the reader BEFORE the BufferOverflow error
+              // and hide the gap in the stream.
+              return;
+            }
             if (bufIt->second->data.size() + data.size() > config.maxSyncReceiveBuffer)
             {
               // Overflow: surface a distinct error to the parked waiter instead
